@@ -238,11 +238,11 @@ PROPS = {
     "C11": {"kind": "det", "title": "Domain separation",
             "level_text": "TLC checks (slice inject) that every hash input layout is an injective encoding of its argument tuple over a tiny octet alphabet; the cross-suite / cross-interface re-interpretations enumerated by the slices sig, proof_adv, blind_adv (invariants C02, C04, C06) are replayed into the library (all must be rejected); generator sets for every api id in use and custom / absent ids are checked for prefix consistency, duplicates, identity, P1 and pairwise disjointness across ciphersuites and api ids."},
     "C13": {"kind": "cl", "title": "CL03 signatures",
-            "level_text": CLTXT + "C13: invariant C13toy (every toy key, attribute vector, admissible e and every derivation v * prod a_i^alpha_i * b^beta with coefficients in -2..2: issued signatures verify, derived pairs verify only for the unchanged vector); the derivations are exported and replayed on real CL1024 (thorough: CL2048) keys together with statement and component edits, selective disclosure of every subset, encodings and facts about e."},
+            "level_text": CLTXT + "MC_clproto.tla models issuance and presentation as a state machine over abstract artefacts (what a signature signs is its content: per position the multiset of attribute atoms in the exponent); TLC checks C14honest, C14refuses, C13unique, C15asmade on every behaviour with at most MaxDev deviations from the honest protocol, exports every complete behaviour with the expected outcome of each call, and `zkv-cl proto` replays them on real keys (specification -> implementation). C13: invariant C13toy (every toy key, attribute vector, admissible e and every derivation v * prod a_i^alpha_i * b^beta with coefficients in -2..2: issued signatures verify, derived pairs verify only for the unchanged vector); the derivations are exported and replayed on real CL1024 (thorough: CL2048) keys together with statement and component edits, selective disclosure of every subset, encodings and facts about e."},
     "C14": {"kind": "cl", "title": "CL03 blind issuance",
-            "level_text": CLTXT + "C14: every non-empty hidden set for n <= 3 (thorough 5), with and without trusted commitment: verify_proof, blind_sign, unblind, verify, update; mismatch families and every integer leaf of the serialised proof perturbed; blind_sign's refusal is observed as its documented panic."},
+            "level_text": CLTXT + "MC_clproto.tla models issuance and presentation as a state machine over abstract artefacts (what a signature signs is its content: per position the multiset of attribute atoms in the exponent); TLC checks C14honest, C14refuses, C13unique, C15asmade on every behaviour with at most MaxDev deviations from the honest protocol, exports every complete behaviour with the expected outcome of each call, and `zkv-cl proto` replays them on real keys (specification -> implementation). C14: every non-empty hidden set for n <= 3 (thorough 5), with and without trusted commitment: verify_proof, blind_sign, unblind, verify, update; mismatch families and every integer leaf of the serialised proof perturbed; blind_sign's refusal is observed as its documented panic."},
     "C15": {"kind": "cl", "title": "CL03 proof of knowledge of a signature",
-            "level_text": CLTXT + "C15: invariant C15used (every leaf the format carries is used by the verifier); every hidden subset, single edits of the statement, and every integer leaf of the serialised proof perturbed (+1, -1, 0, swap)."},
+            "level_text": CLTXT + "MC_clproto.tla models issuance and presentation as a state machine over abstract artefacts (what a signature signs is its content: per position the multiset of attribute atoms in the exponent); TLC checks C14honest, C14refuses, C13unique, C15asmade on every behaviour with at most MaxDev deviations from the honest protocol, exports every complete behaviour with the expected outcome of each call, and `zkv-cl proto` replays them on real keys (specification -> implementation). C15: invariant C15used (every leaf the format carries is used by the verifier); every hidden subset, single edits of the statement, and every integer leaf of the serialised proof perturbed (+1, -1, 0, swap)."},
     "C16": {"kind": "cl", "title": "Boudot range proof",
             "level_text": CLTXT + "C16: invariant C16anchored (every part of the square decomposition is certified by a sub-proof tied to a recomputed value); widths 1, 2, 3, 2^8, 2^64, 2^256-1 (thorough 2^1024-1), positions a, a+1, mid, b-1, b, random, three base sets; other bounds / bases / modulus; invariant C16tolerance (toy intervals: only in-range values are acceptable given what the larger-interval proof shows); transplants onto a-1, b+1, a-2^k, b+2^k and a random element; shifted proofs (commitment divided by g^d, larger-interval responses moved accordingly) onto a-1, b+1, a-w, b+w; every leaf +-1; the honest prover outside the interval."},
     "C17": {"kind": "cl", "title": "CL03 proofs do not carry openings",
@@ -823,6 +823,35 @@ def run_cl_property(prop, tier):
     with open(derivs, "w") as f:
         for m in re.finditer(r'^<<"CASE", "(.*)">>$', out, re.M):
             f.write(json.loads('"' + m.group(1) + '"') + "\n")
+    # --- specification -> implementation: the behaviours of MC_clproto.tla (issuance and presentation as a state
+    #     machine, at most MaxDev deviations from the honest protocol) replayed on real keys
+    proto = None
+    if prop in ("C13", "C14", "C15"):
+        pconsts = {"MaxN": 2 if tier == "quick" else 3, "MaxDev": 1 if tier == "quick" else 2}
+        rc, o3 = tlc("MC_clproto", cfg_text(pconsts, init="Init", invariants=["C14honest", "C14refuses", "C13unique", "C15asmade", "Export"]),
+                     "%s_clproto_%s" % (prop, tier), workers=4, timeout=3000)
+        if "Model checking completed. No error has been found." not in o3:
+            m = re.search(r"Invariant (\w+) is violated", o3)
+            if m:
+                violations.append({"property": prop, "what": "TLC: invariant %s of MC_clproto fails (specification level)" % m.group(1)})
+            else:
+                raise ToolError("slice MC_clproto failed: " + o3[-2000:])
+        pstats = tlc_stats(o3)
+        pcases = os.path.join(BUILD, "cl_proto_cases_%s_%s.ndjson" % (prop, tier))
+        with open(pcases, "w") as f:
+            for m in re.finditer(r'^<<"CASE", "(.*)">>$', o3, re.M):
+                f.write(json.loads('"' + m.group(1) + '"') + "\n")
+        prep = os.path.join(BUILD, "cl_proto_report_%s_%s.json" % (prop, tier))
+        sh([ZKVCL, "proto", prep, "--derivs", pcases, "--keys", "2", "--suite", "1024"], env=dict(cl_env(), VERIF_SEED=str(seed())), timeout=14000)
+        pr = json.load(open(prep))
+        if pr["cases"] == 0:
+            raise ToolError("MC_clproto exported no behaviour")
+        mine = [mm for mm in pr["mismatches"] if prop in mm["properties"]]
+        for mm in mine[:10]:
+            violations.append({"property": prop, "what": "decision of %s in a behaviour of MC_clproto (case %d, step %d)" % (mm["op"], mm["case"], mm["step"]),
+                               "expected": mm["expected"], "observed": mm["observed"], "steps": mm["steps"], "args": mm["args"]})
+        proto = {"constants": pconsts, "states": pstats["distinct"], "behaviours": pr["cases"], "steps": pr["steps"], "decisions_compared": pr["checks"],
+                 "calls": pr["ops"], "mismatches": len(mine), "mismatches_other_properties": len(pr["mismatches"]) - len(mine), "sample": pr["sample"]}
     # --- implementation -> specification: driver logs
     suites = [("1024", 2 if tier == "quick" else 4)] + ([("2048", 2)] if tier == "thorough" else [])
     nev = 0
@@ -874,11 +903,13 @@ def run_cl_property(prop, tier):
         "coverage": {
             "states": max(stats["distinct"], 1), "transitions": max(stats["states"], 1),
             "traces_validated_against_impl": sum(1 for l in logs if l["intended"] or l.get("as_is")),
+            "traces_replayed_into_impl": (proto or {}).get("behaviours", 0),
             "trace_events_validated": nev, "evaluations": nev, "distinct_nontrivial": nev,
             "rule": "one event per observation of the real library (feature cl03): every hidden-position subset, mismatch family, derivation exported by TLC, integer leaf perturbation, interval width / position; the bounded slices of MC_cl.tla are constant-level invariants evaluated by TLC (toy RSA groups, formats, anchoring, mask table)",
             "samples": samples[:4], "logs": logs, "slice_invariants": spec["inv"], "slice_constants": consts,
             "as_is_specification_violates": spec_level, "known_findings_reobserved": known, "exhaustive": False,
             "informational_missing_links_F11": missing_links, "informational_events": info[:6],
+            "protocol_behaviours_replayed": proto,
         },
         "assumptions": ["CL03 runs against a GMP built without assembly (no m4 in the sandbox)",
                         "toy RSA moduli from safe primes below Bound; attribute size 3 bits in the toy model",
@@ -989,6 +1020,22 @@ def selftest():
     r = json.load(open(rp))
     hit = len(r["mismatches"]) >= 1 and all(m["case"] == 50 for m in r["mismatches"])
     print("  [%s] one expected decision flipped: %d mismatch(es), all in that case" % ("ok" if hit else "FAIL", len(r["mismatches"])))
+    ok &= hit
+    print("replay binding (MC_clproto, CL03):")
+    build_harness(cl=True)
+    rc, o3 = tlc("MC_clproto", cfg_text({"MaxN": 1, "MaxDev": 1}, init="Init", invariants=["Export"]), "selftest_clproto", workers=2, timeout=600)
+    pl = [json.loads('"' + m.group(1) + '"') for m in re.finditer(r'^<<"CASE", "(.*)">>$', o3, re.M)]
+    tgt = next(i for i, l in enumerate(pl) if json.loads(l)[-1]["op"] in ("VerifySig", "ProofVerify"))
+    c0 = json.loads(pl[tgt])
+    c0[-1]["res"] = "false" if c0[-1]["res"] == "true" else "true"
+    pl[tgt] = json.dumps(c0)
+    pc2 = os.path.join(BUILD, "selftest_clproto.ndjson")
+    open(pc2, "w").write("\n".join(pl) + "\n")
+    rp2 = os.path.join(BUILD, "selftest_clproto_rep.json")
+    sh([ZKVCL, "proto", rp2, "--derivs", pc2, "--keys", "2", "--suite", "1024"], env=dict(cl_env(), VERIF_SEED="1"), timeout=3000)
+    r2 = json.load(open(rp2))
+    hit = len(r2["mismatches"]) == 1 and r2["mismatches"][0]["case"] == tgt
+    print("  [%s] %d behaviours replayed; one expected decision flipped: %d mismatch(es), in that behaviour" % ("ok" if hit else "FAIL", r2["cases"], len(r2["mismatches"])))
     ok &= hit
     print("selftest", "passed" if ok else "FAILED")
     return 0 if ok else 2
